@@ -1,12 +1,14 @@
 package eng
 
 import (
+	"bufio"
 	"encoding/hex"
 	"fmt"
 	"go/constant"
 	"go/token"
 	"go/types"
 	"math"
+	"regexp"
 	"sort"
 	"strconv"
 	"strings"
@@ -34,6 +36,9 @@ type (
 	EPtr struct {
 		Get func() any
 		Set func(any)
+		// Loc identifies what is pointed to (a location, or a field of one): two pointers to the same variable,
+		// element or field are equal and are the same map key
+		Loc any
 	}
 	// ETuple is a multi-value result.
 	ETuple []any
@@ -72,6 +77,12 @@ type EBytesReader struct {
 // poison marks a value the evaluator could not compute while running a package initialiser tolerantly.
 type poison struct{}
 
+// fieldLoc identifies a field of a location.
+type fieldLoc struct {
+	P any
+	F int
+}
+
 // EErr is a non-nil error value (what it says is not modelled).
 type EErr struct{ Msg string }
 
@@ -99,6 +110,21 @@ func mapKey(v any) (any, bool) {
 	switch k := v.(type) {
 	case int64, string, bool, float64:
 		return k, true
+	case *EPtr:
+		if k != nil && k.Loc != nil {
+			return k.Loc, true
+		}
+	case *EStruct:
+		// a struct of basic values is a key by its values
+		parts := make([]string, 0, len(k.F))
+		for _, f := range k.F {
+			fk, ok := mapKey(f)
+			if !ok {
+				return nil, false
+			}
+			parts = append(parts, fmt.Sprintf("%T:%v", fk, fk))
+		}
+		return "struct{" + strings.Join(parts, ";") + "}", true
 	case *EIface:
 		if inner, ok := mapKey(k.V); ok {
 			return fmt.Sprintf("%s:%v", k.T, inner), true
@@ -296,7 +322,7 @@ func (ev *Evaluator) callWith(fn *ssa.Function, args []any, free []any, depth in
 				if e != nil {
 					return nil, e
 				}
-				return &EPtr{Get: func() any { return loc.V }, Set: func(v any) { loc.V = v }}, nil
+				return &EPtr{Get: func() any { return loc.V }, Set: func(v any) { loc.V = v }, Loc: loc}, nil
 			}
 			return nil, notEval("global %s", x.Name())
 		}
@@ -403,7 +429,7 @@ func (ev *Evaluator) callWith(fn *ssa.Function, args []any, free []any, depth in
 					}
 				case *ssa.Alloc:
 					loc := &ELoc{ZeroOf(x.Type().Underlying().(*types.Pointer).Elem())}
-					env[x] = &EPtr{Get: func() any { return loc.V }, Set: func(v any) { loc.V = v }}
+					env[x] = &EPtr{Get: func() any { return loc.V }, Set: func(v any) { loc.V = v }, Loc: loc}
 				case *ssa.Store:
 					a, e := val(x.Addr)
 					if e != nil {
@@ -431,6 +457,7 @@ func (ev *Evaluator) callWith(fn *ssa.Function, args []any, free []any, depth in
 					env[x] = &EPtr{
 						Get: func() any { return p.Get().(*EStruct).F[fi] },
 						Set: func(v any) { p.Get().(*EStruct).F[fi] = v },
+						Loc: fieldLoc{p.Loc, fi},
 					}
 					if _, isS := p.Get().(*EStruct); !isS {
 						return nil, false, notEval("field of %T", p.Get())
@@ -474,7 +501,7 @@ func (ev *Evaluator) callWith(fn *ssa.Function, args []any, free []any, depth in
 						return nil, false, panics("index out of range [%d] with length %d", i, len(sl.L))
 					}
 					loc := sl.L[i]
-					env[x] = &EPtr{Get: func() any { return loc.V }, Set: func(v any) { loc.V = v }}
+					env[x] = &EPtr{Get: func() any { return loc.V }, Set: func(v any) { loc.V = v }, Loc: loc}
 				case *ssa.Index:
 					a, e := val(x.X)
 					if e != nil {
@@ -904,6 +931,10 @@ func constVal(c *ssa.Const) (any, *EvalError) {
 		}
 		return nil, nil
 	}
+	if bt, ok := c.Type().Underlying().(*types.Basic); ok && bt.Info()&types.IsFloat != 0 {
+		f, _ := constant.Float64Val(constant.ToFloat(c.Value))
+		return f, nil
+	}
 	switch c.Value.Kind() {
 	case constant.Bool:
 		return constant.BoolVal(c.Value), nil
@@ -1119,7 +1150,7 @@ func binop(x *ssa.BinOp, l, r any) (any, *EvalError) {
 	case *EPtr:
 		same := false
 		if b, ok := r.(*EPtr); ok {
-			same = a == b
+			same = a == b || (a != nil && b != nil && a.Loc != nil && a.Loc == b.Loc)
 		} else if r == nil {
 			same = a == nil
 		}
@@ -1326,6 +1357,11 @@ func (ev *Evaluator) callCommon(cc *ssa.CallCommon, val func(ssa.Value) (any, *E
 		if recv == nil {
 			return nil, panics("method call on a nil interface")
 		}
+		if br, ok := recv.(*EBytesReader); ok {
+			if r, e, handled := readerMethod(br, cc.Method.Name(), args); handled {
+				return r, e
+			}
+		}
 		if ev.Invoke != nil {
 			if r, e, ok := ev.Invoke(cc.Method.Name(), recv, args); ok {
 				return r, e
@@ -1373,6 +1409,159 @@ func (ev *Evaluator) callFunction(g *ssa.Function, args []any, depth int) (any, 
 	}
 	if g.Blocks != nil && (InModule(g) || g.Pkg == nil) {
 		return ev.Call(g, args, depth+1)
+	}
+	switch nm := FuncName(g); nm {
+	case "bufio.NewScanner":
+		var r *EBytesReader
+		switch v := args[0].(type) {
+		case *EBytesReader:
+			r = v
+		case *EIface:
+			r, _ = v.V.(*EBytesReader)
+		}
+		if r == nil {
+			return nil, notEval("scanner over %T", args[0])
+		}
+		return &EScanner{R: r}, nil
+	case "bufio.(*Scanner).Split":
+		if sc, ok := args[0].(*EScanner); ok {
+			sc.Split = args[1]
+			return nil, nil
+		}
+	case "bufio.(*Scanner).Buffer":
+		return nil, nil
+	case "bufio.(*Scanner).Err":
+		return nil, nil
+	case "bufio.(*Scanner).Text", "bufio.(*Scanner).Bytes":
+		if sc, ok := args[0].(*EScanner); ok {
+			if nm == "bufio.(*Scanner).Text" {
+				return string(sc.Tok), nil
+			}
+			return BytesOf(sc.Tok), nil
+		}
+	case "bufio.(*Scanner).Scan":
+		if sc, ok := args[0].(*EScanner); ok {
+			if sc.Done {
+				return false, nil
+			}
+			rest := sc.R.Data[sc.R.Pos:]
+			var adv int
+			var tok []byte
+			haveTok := false
+			switch f := sc.Split.(type) {
+			case nil:
+				a, t, _ := bufio.ScanLines(rest, true)
+				adv, tok, haveTok = a, t, t != nil
+			case *EClosure, *ssa.Function:
+				var r any
+				var e *EvalError
+				if cl, isCl := f.(*EClosure); isCl {
+					r, e = ev.callWith(cl.Fn, []any{BytesOf(rest), true}, cl.Free, depth+1)
+				} else {
+					r, e = ev.callWith(f.(*ssa.Function), []any{BytesOf(rest), true}, nil, depth+1)
+				}
+				if e != nil {
+					return nil, e
+				}
+				t, ok := r.(ETuple)
+				if !ok || len(t) != 3 {
+					return nil, notEval("split function result")
+				}
+				a, _ := t[0].(int64)
+				adv = int(a)
+				if ts, ok := t[1].(*ESlice); ok && ts.L != nil {
+					haveTok = true
+					for _, l := range ts.L {
+						b, _ := l.V.(int64)
+						tok = append(tok, byte(b))
+					}
+				}
+				if t[2] != nil {
+					sc.Done = true
+					return false, nil
+				}
+			default:
+				return nil, notEval("split function %T", sc.Split)
+			}
+			if adv < 0 || adv > len(rest) {
+				return nil, panics("bufio.Scanner: SplitFunc returns advance count beyond input")
+			}
+			sc.R.Pos += adv
+			if !haveTok {
+				sc.Done = true
+				return false, nil
+			}
+			if tok == nil {
+				tok = []byte{}
+			}
+			sc.Tok = tok
+			if adv == 0 && len(rest) == 0 {
+				sc.Done = true
+			}
+			return true, nil
+		}
+	case "sort.Slice", "sort.SliceStable":
+		// the slice is sorted in place by calling the comparison function of the evaluated code
+		var sl *ESlice
+		switch v := args[0].(type) {
+		case *EIface:
+			sl, _ = v.V.(*ESlice)
+		case *ESlice:
+			sl = v
+		}
+		if sl == nil {
+			if ifc, ok := args[0].(*EIface); ok && ifc.V == nil {
+				return nil, nil
+			}
+			return nil, notEval("%s of %T", nm, args[0])
+		}
+		var failed *EvalError
+		less := func(i, j int) bool {
+			if failed != nil {
+				return false
+			}
+			var r any
+			var e *EvalError
+			switch f := args[1].(type) {
+			case *EClosure:
+				r, e = ev.callWith(f.Fn, []any{int64(i), int64(j)}, f.Free, depth+1)
+			case *ssa.Function:
+				r, e = ev.callWith(f, []any{int64(i), int64(j)}, nil, depth+1)
+			default:
+				e = notEval("comparison function %T", args[1])
+			}
+			if e != nil {
+				failed = e
+				return false
+			}
+			b, _ := r.(bool)
+			return b
+		}
+		srt := &evalSorter{l: sl.L, less: less}
+		if nm == "sort.Slice" {
+			sort.Sort(srt)
+		} else {
+			sort.Stable(srt)
+		}
+		return nil, failed
+	case "sort.Strings", "sort.Ints", "sort.Float64s":
+		if sl, ok := args[0].(*ESlice); ok {
+			sort.SliceStable(sl.L, func(i, j int) bool {
+				switch a := sl.L[i].V.(type) {
+				case string:
+					b, _ := sl.L[j].V.(string)
+					return a < b
+				case int64:
+					b, _ := sl.L[j].V.(int64)
+					return a < b
+				case float64:
+					b, _ := sl.L[j].V.(float64)
+					return a < b
+				}
+				return false
+			})
+			return nil, nil
+		}
 	}
 	// library functions see the values interface values hold
 	for i, a := range args {
@@ -1487,6 +1676,55 @@ func (ev *Evaluator) callFunction(g *ssa.Function, args []any, depth int) (any, 
 				r.Pos--
 			}
 			return nil, nil
+		}
+	case "regexp.MustCompile", "regexp.Compile":
+		if pat, ok := args[0].(string); ok {
+			re, err := regexp.Compile(pat)
+			if FuncName(g) == "regexp.Compile" {
+				if err != nil {
+					return ETuple{nil, &EErr{Msg: err.Error()}}, nil
+				}
+				return ETuple{re, nil}, nil
+			}
+			if err != nil {
+				return nil, panics("regexp: %v", err)
+			}
+			return re, nil
+		}
+	case "regexp.(*Regexp).MatchString", "regexp.(*Regexp).FindString", "regexp.(*Regexp).FindStringSubmatch", "regexp.(*Regexp).FindStringIndex", "regexp.(*Regexp).FindAllString", "regexp.(*Regexp).ReplaceAllString", "regexp.(*Regexp).String":
+		re, ok := args[0].(*regexp.Regexp)
+		if !ok || re == nil {
+			return nil, notEval("regular expression value %T", args[0])
+		}
+		str := func(i int) string { v, _ := args[i].(string); return v }
+		switch g.Name() {
+		case "MatchString":
+			return re.MatchString(str(1)), nil
+		case "FindString":
+			return re.FindString(str(1)), nil
+		case "FindStringSubmatch":
+			m := re.FindStringSubmatch(str(1))
+			if m == nil {
+				return &ESlice{}, nil
+			}
+			return sliceOfStrings(m), nil
+		case "FindStringIndex":
+			m := re.FindStringIndex(str(1))
+			if m == nil {
+				return &ESlice{}, nil
+			}
+			return SliceOf(int64(m[0]), int64(m[1])), nil
+		case "FindAllString":
+			k, _ := args[2].(int64)
+			m := re.FindAllString(str(1), int(k))
+			if m == nil {
+				return &ESlice{}, nil
+			}
+			return sliceOfStrings(m), nil
+		case "ReplaceAllString":
+			return re.ReplaceAllString(str(1), str(2)), nil
+		case "String":
+			return re.String(), nil
 		}
 	case "bufio.NewReader", "bufio.NewReaderSize":
 		if r, ok := args[0].(*EBytesReader); ok {
@@ -1894,6 +2132,48 @@ func libraryCall(name string, args []any) (any, *EvalError, bool) {
 				return math.Sqrt(f), nil, true
 			}
 		}
+	case "math.Inf":
+		if isN(0) {
+			return math.Inf(int(n(0))), nil, true
+		}
+	case "math.IsNaN", "math.IsInf":
+		if f, ok := args[0].(float64); ok {
+			if name == "math.IsNaN" {
+				return math.IsNaN(f), nil, true
+			}
+			sign, _ := args[1].(int64)
+			return math.IsInf(f, int(sign)), nil, true
+		}
+	case "math.Pow", "math.Mod", "math.Hypot", "math.Atan2":
+		a, ok1 := args[0].(float64)
+		b, ok2 := args[1].(float64)
+		if ok1 && ok2 {
+			switch name {
+			case "math.Pow":
+				return math.Pow(a, b), nil, true
+			case "math.Mod":
+				return math.Mod(a, b), nil, true
+			case "math.Hypot":
+				return math.Hypot(a, b), nil, true
+			case "math.Atan2":
+				return math.Atan2(a, b), nil, true
+			}
+		}
+	case "math.Trunc", "math.Log", "math.Exp", "math.Sin", "math.Cos":
+		if f, ok := args[0].(float64); ok {
+			switch name {
+			case "math.Trunc":
+				return math.Trunc(f), nil, true
+			case "math.Log":
+				return math.Log(f), nil, true
+			case "math.Exp":
+				return math.Exp(f), nil, true
+			case "math.Sin":
+				return math.Sin(f), nil, true
+			case "math.Cos":
+				return math.Cos(f), nil, true
+			}
+		}
 	case "math.Max", "math.Min":
 		a, ok1 := args[0].(float64)
 		b, ok2 := args[1].(float64)
@@ -1961,4 +2241,98 @@ func (ev *Evaluator) Method(prog *ssa.Program, recv any, name string, args ...an
 		}
 	}
 	return nil, notEval("no method %s on %s", name, ifc.T)
+}
+
+
+// evalSorter sorts the locations of an evaluated slice: the values move, the locations stay (as in Go, where a
+// sort swaps elements of the backing array).
+type evalSorter struct {
+	l    []*ELoc
+	less func(i, j int) bool
+}
+
+func (s *evalSorter) Len() int           { return len(s.l) }
+func (s *evalSorter) Less(i, j int) bool { return s.less(i, j) }
+func (s *evalSorter) Swap(i, j int)      { s.l[i].V, s.l[j].V = s.l[j].V, s.l[i].V }
+
+
+// readerMethod answers the io.Reader / io.Seeker / io.ByteReader / io.ReaderAt methods of a reader over known bytes.
+func readerMethod(r *EBytesReader, method string, args []any) (any, *EvalError, bool) {
+	switch method {
+	case "Read":
+		buf, ok := args[0].(*ESlice)
+		if !ok {
+			return nil, nil, false
+		}
+		if r.Pos >= len(r.Data) {
+			if len(buf.L) == 0 {
+				return ETuple{int64(0), nil}, nil, true
+			}
+			return ETuple{int64(0), ErrEOF}, nil, true
+		}
+		n := 0
+		for n < len(buf.L) && r.Pos < len(r.Data) {
+			buf.L[n].V = int64(r.Data[r.Pos])
+			n++
+			r.Pos++
+		}
+		return ETuple{int64(n), nil}, nil, true
+	case "ReadByte":
+		if r.Pos >= len(r.Data) {
+			return ETuple{int64(0), ErrEOF}, nil, true
+		}
+		r.Pos++
+		return ETuple{int64(r.Data[r.Pos-1]), nil}, nil, true
+	case "Seek":
+		off, ok1 := args[0].(int64)
+		whence, ok2 := args[1].(int64)
+		if !ok1 || !ok2 {
+			return nil, nil, false
+		}
+		var abs int64
+		switch whence {
+		case 0:
+			abs = off
+		case 1:
+			abs = int64(r.Pos) + off
+		case 2:
+			abs = int64(len(r.Data)) + off
+		default:
+			return ETuple{int64(0), &EErr{Msg: "invalid whence"}}, nil, true
+		}
+		if abs < 0 {
+			return ETuple{int64(0), &EErr{Msg: "negative position"}}, nil, true
+		}
+		if abs > int64(len(r.Data)) {
+			r.Pos = len(r.Data)
+		} else {
+			r.Pos = int(abs)
+		}
+		return ETuple{abs, nil}, nil, true
+	case "ReadAt":
+		buf, ok := args[0].(*ESlice)
+		off, ok2 := args[1].(int64)
+		if !ok || !ok2 || off < 0 {
+			return nil, nil, false
+		}
+		n := 0
+		for n < len(buf.L) && int(off)+n < len(r.Data) {
+			buf.L[n].V = int64(r.Data[int(off)+n])
+			n++
+		}
+		if n < len(buf.L) {
+			return ETuple{int64(n), ErrEOF}, nil, true
+		}
+		return ETuple{int64(n), nil}, nil, true
+	}
+	return nil, nil, false
+}
+
+// EScanner stands for a *bufio.Scanner over a reader of known bytes. A split function of the module is called
+// through the evaluator; without one the lines are split as bufio.ScanLines does.
+type EScanner struct {
+	R     *EBytesReader
+	Split any // *EClosure, *ssa.Function or nil
+	Tok   []byte
+	Done  bool
 }
